@@ -95,6 +95,11 @@ for k in ("C02","C04","C08"):
 CHECKS["C04"]["technique"] += "; plus E2: all schedules up to 2/3 preemptions of 2-3 threads x 1-2 ops on a 2-block pool, serial-order oracle and porcupine linearizability check"
 CHECKS["C02"]["technique"] += "; plus E2: C16's DHCPv4 scenarios (same client twice, two/three clients at exhaustion) under all schedules up to the preemption bound"
 CHECKS["C08"]["technique"] += "; plus E2: C16's DHCPv6 prefix scenarios under all schedules up to the preemption bound"
+
+CHECKS["C01"] = dict(level="exploration", engine="E3+E1", ref="5/C01",
+   technique="deviation-bounded exhaustive enumeration: all grammar-generated seed datagrams and their complete 1-deviation closure through the real HandleMsg4/6 under plugin chains (one process per chain), plus all datagram sequences up to depth 2/3 on fresh lease plugins",
+   text="~770 DHCPv4 and ~1930 DHCPv6 grammar seeds (message types x hardware-address lengths x option sets x relay nesting up to the deepest that fits a datagram) plus all byte strings of length 0..2 are handled by the real per-datagram entry points under every single built-in plugin, the example-config chains and full chains in three rotations (thorough: every ordered pair of plugins), for bound/unbound listeners with/without receive control message; for the full chains also every truncation, single-bit flip, boundary-byte substitution and adjacent option swap of the seeds (quick: 64 seeds per chain). Every sequence of up to 2 (thorough 3) state-relevant datagrams runs on fresh range/prefix instances. Oracle: no panic, at most one reply, lease-plugin mutex free afterwards, the probe client still served at the end, no datagram exceeds the watchdog; a worker that dies (log.Fatal, fatal error) is re-run alone and reported.",
+   note="Socket writes are captured by hook H1. Datagrams more than one deviation away from a seed and chains of 3+ plugins beyond the listed ones are not explored. Hang detection uses a 20 s per-datagram watchdog confirmed by a re-run.")
 ALL = ["C%02d" % i for i in range(1, 21)]
 NA_REASON = "check not built yet in this session (planned, see DESIGN.md section 5); will be claimed once its machinery exists"
 m = {
@@ -110,7 +115,7 @@ m = {
  "engines": [
   {"name": "E1 explicit-state BFS over real handlers", "path": "mc/explore", "serves_properties": ["C02","C03","C04","C05","C06","C07","C08","C09","C10"], "kind_free_text": "explicit-state model checking where every transition is an execution of the real code on a fresh instance (replay of the shortest path + 1 op); state key = hook dump + observer ghost"},
   {"name": "E2 cooperative scheduler + preemption-bounded DFS", "path": "mc/sched + mc/verifsched + mc/cmd/instr", "serves_properties": ["C02","C04","C08","C16"], "kind_free_text": "stateless model checking of the implementation: sync replaced by a shim through go build -overlay, Yield() injected before every statement, all schedules up to a preemption bound"},
-  {"name": "E3 bounded-exhaustive enumerator vs reference model", "path": "mc/checks/*", "serves_properties": ["C10","C11","C12","C13","C14","C15","C17","C18","C19","C20"], "kind_free_text": "complete cross product of small per-dimension alphabets executed on the real code and compared with a reference written from the property text"},
+  {"name": "E3 bounded-exhaustive enumerator vs reference model", "path": "mc/checks/*", "serves_properties": ["C01","C10","C11","C12","C13","C14","C15","C17","C18","C19","C20"], "kind_free_text": "complete cross product of small per-dimension alphabets executed on the real code and compared with a reference written from the property text"},
  ],
  "checks": [],
  "not_applicable": [],
